@@ -1,4 +1,5 @@
 import ColoVerif.Proofs.LegalizeIdem
+import ColoVerif.Proofs.LegalizeIdem2Circuit
 /-
 C11 — legalization does not move an already legal single-row placement.
 
@@ -54,36 +55,168 @@ theorem rowleg_no_conflict (b e : Int) (cs : List (Int × Int)) (h : InOrder e b
 /-- non-vacuity of `rowleg_no_conflict` -/
 example : InOrder 10 0 [(4, 0), (1, 4), (2, 7)] := by simp [InOrder]
 
-/-- positions-only legality of a single-row design, spelled out over `computeRows`: every movable
-cell sits in one free segment with its bottom on the segment's `minY`, gets the orientation its
-polarity demands there, and no two movable cells intersect. -/
-def LegalSingleRow (c : Circuit) : Prop :=
-  (∀ cl ∈ c.cells, cl.fixed = false →
-    ∃ r ∈ c.computeRows, cl.y = r.rect.minY ∧ r.rect.minX ≤ cl.x ∧ cl.x + cl.placedWidth ≤ r.rect.maxX ∧
-      (cl.pol = Polarity.ANY ∨ cellOrientationInRow cl.pol r.orient = cl.orient)) ∧
-  (c.cells.filter fun cl => !cl.fixed).Pairwise fun a b => a.placement.intersects b.placement = false
+/-- **The cell order is a sorted permutation.**  `computeCellOrder` returns a permutation of the cell
+indices, listed in non-decreasing `(key, index)` order (`std::stable_sort` on the pairs), for every
+rounding of the key. -/
+theorem cell_order_sorted_perm (rnd : Rat → Rat) (ww wy wh : Rat) (cells : List LCell) :
+    (computeCellOrder rnd ww wy wh cells).Perm (List.range cells.length) ∧
+    (computeCellOrder rnd ww wy wh cells).Pairwise fun i j =>
+      ¬ keyLt (orderKey rnd ww wy wh (cellAt cells j), j) (orderKey rnd ww wy wh (cellAt cells i), i) = true :=
+  ⟨computeCellOrder_perm rnd ww wy wh cells, computeCellOrder_sorted rnd ww wy wh cells⟩
 
-/-- The circuit-level statement of C11 (not proved for all inputs; see `legalize_idempotent_partial`
-and the differential harness): a legal placement of a design whose movable cells are all one row
-high is a fixed point of `legalize` when `0 ≤ orderingWidth ≤ 1` (exact key). -/
-def legalize_idempotent_full_statement : Prop :=
-  ∀ (p : Params) (c : Circuit), p.check = true → 0 ≤ p.ow → p.ow ≤ 1 →
-    (∀ cl ∈ c.cells, cl.fixed = false → 0 < cl.placedWidth ∧ Circuit.rowHeight c = some cl.placedHeight) →
-    LegalSingleRow c → legalizeExact p c = .ok c
+/-- **`placeCell` keeps a legal cell in its own segment.**  State of `AbacusLegalizer` (`SearchCtx`):
+sorted rows of the cell's height, every row legalizer reachable by pushes that fit, and the cell `c`
+lies in segment `k0` (`minY = c.ty`, ends inside, orientation not INVALID) to the right of
+everything pushed there so far (the no-conflict invariant `NC` with `lo ≤ c.tx`), every other
+segment of the same y lying entirely left or right of the cell.  Then the row search of
+`placeCell` — upwards from `closestRow`, then downwards, with the early exit — returns exactly
+`(bestRow, bestDist) = (k0, 0)` and the row legalizers unchanged: the own segment costs 0 and is
+reached before any segment at non-zero y distance; the segments of the same y visited before it
+cost > 0 or have no room, and `dist < bestDist` is strict, so later ties do not replace it. -/
+theorem abacus_keeps_own_row (S : List Row) (legs : List RowLeg.State) (c : LCell) (k0 : Nat)
+    (x : SearchCtx S legs c k0) :
+    searchRows (abacusTry S c) S.length (startRow S c.ty) (legs, none) = (legs, some ⟨k0, 0⟩) :=
+  x.search
 
-/-- **Idempotence, single-segment core (partial).**  For the cells of one free segment `[b, e]`
-listed left to right (same y, same height, in order, non-overlapping, inside the segment) and
-`0 ≤ orderingWidth ≤ 1`: (1) their exact ordering keys are strictly increasing, so
-`computeCellOrder` visits them left to right, and (2) pushing them in that order into the
-segment's `RowLegalizer` costs 0 each time and `getPlacement` returns their own positions.
+/-- **The Abacus pass moves nothing** when every cell sits in a segment of the (sorted) rows with
+the orientation it gets there and the cells of one y are visited left to right (`IdemOK`): all cells
+are reported placed at their own x/y/orientation and `AbacusLegalizer::check` passes. -/
+theorem abacus_pass_fixed (R : List Row) (H : Int) (cells : List LCell) (ok : IdemOK (sortRows R) H cells) :
+    abacusRun R cells = .ok (cells.map fun c => ⟨c.tx, c.ty, c.torient, true⟩) :=
+  abacusRun_fixed R H cells ok
 
-Missing for `legalize_idempotent_full_statement`: that `sortKeys` is a sorted permutation (so (1)
-transfers to `computeCellOrder`), that `AbacusLegalizer::placeCell` keeps a legal cell in its own
-segment (cost 0 there, visited before any segment of larger y-distance, positive cost or no space
-in the other segments of the same y — `abacus_keeps_own_row` of DESIGN §9), and the index plumbing
-of `importLegalization`/`exportPlacement`.  These are supported by the C11 correspondence and
-oracle streams (legal placements re-legalized on the real code and on this model), not by proof. -/
-theorem legalize_idempotent_partial (b e : Int) (ww wy wh : Rat) (h0 : 0 ≤ ww) (h1 : ww ≤ 1) (ty hh : Int)
+/-- **Idempotence (flagship), for any rounding that keeps the left-to-right order.**
+`c` in the C01 domain (`DomC`: the domain as the property spells it out, implied by the decidable
+`C01.Dom` through `Legalize.domL_spelled`), all movable cells exactly one row high (`SingleRow`),
+legal as C01 defines it over `computeRows` (`LegalC` = `C01.Legal` verbatim) and orientation-legal
+(`OrientLegal`: no movable cell has orientation INVALID, and a cell already has the orientation
+`cellOrientationInRow` prescribes in the free segment it sits in, if it prescribes one — C01's
+`Legal` says nothing about orientations, and without this `legalize` re-orients the cell), parameters
+accepted by `check`, and a key rounding `rnd` under which a cell entirely left of another one at the
+same y sorts first (`KeyOrder`).  Then `legalize` returns the circuit itself: no position, no
+orientation, nothing changes. -/
+theorem legalize_idempotent_any_key (rnd : Rat → Rat) (p : Params) (c : Circuit) (hp : p.check = true)
+    (hd : DomC c) (hs : SingleRow c) (hl : LegalC c) (ho : OrientLegal c) (hk : KeyOrder rnd p (movable c)) :
+    legalizeWith rnd p c = .ok c :=
+  legalizeWith_fixed rnd p c hp hd hs hl ho hk
+
+/-- **Idempotence, exact key** (the property's own assumption on the float key), for every
+`0 ≤ orderingWidth ≤ 1` and every accepted `orderingY`, `orderingHeight`. -/
+theorem legalize_idempotent (p : Params) (c : Circuit) (hp : p.check = true) (h0 : 0 ≤ p.ow) (h1 : p.ow ≤ 1)
+    (hd : DomC c) (hs : SingleRow c) (hl : LegalC c) (ho : OrientLegal c) :
+    legalizeExact p c = .ok c :=
+  legalizeWith_fixed id p c hp hd hs hl ho (keyOrder_exact p h0 h1 _)
+
+/-- **Idempotence, binary32 key as compiled**, whenever the binary32 key of every movable cell equals
+the exact key ("coordinates small enough that the float ordering key is exact").  Without that
+hypothesis the statement is false for the compiled code: `orderingHeight` is unbounded, a large
+`orderingHeight·h` term absorbs the x part of the key, ties are then broken by index and two cells
+of a row are swapped. -/
+theorem legalize_idempotent_binary32 (p : Params) (c : Circuit) (hp : p.check = true) (h0 : 0 ≤ p.ow) (h1 : p.ow ≤ 1)
+    (hd : DomC c) (hs : SingleRow c) (hl : LegalC c) (ho : OrientLegal c)
+    (hexact : ∀ lc ∈ movable c, orderKey f32 p.ow p.oy p.oh lc = orderKey id p.ow p.oy p.oh lc) :
+    legalize p c = .ok c := by
+  apply legalizeWith_fixed f32 p c hp hd hs hl ho
+  intro i j hi hj hy hh hw1 hw2 hx
+  rw [hexact _ (cellAt_mem _ i hi), hexact _ (cellAt_mem _ j hj)]
+  exact keyOrder_exact p h0 h1 _ i j hi hj hy hh hw1 hw2 hx
+
+/-- **Legalizing twice = legalizing once**: if the first call returns `c'` and `c'` is in the domain
+and legal (C01's obligation on the result) then the second call returns `c'` again. -/
+theorem legalize_twice (p : Params) (c c' : Circuit) (h0 : 0 ≤ p.ow) (h1 : p.ow ≤ 1)
+    (hfirst : legalizeExact p c = .ok c')
+    (hd : DomC c') (hs : SingleRow c') (hl : LegalC c') (ho : OrientLegal c') :
+    legalizeExact p c' = .ok c' := by
+  have hp : p.check = true := by
+    unfold legalizeExact legalizeWith at hfirst
+    by_cases hc : p.check = true
+    · exact hc
+    · simp [hc] at hfirst
+  exact legalize_idempotent p c' hp h0 h1 hd hs hl ho
+
+def positions (c : Circuit) : List (Int × Int) := c.cells.map fun cl => (cl.x, cl.y)
+def resultPositions : Except Err Circuit → Option (List (Int × Int))
+  | .ok c => some (positions c)
+  | .error _ => none
+
+/-! Non-vacuity of the idempotence theorems: a circuit with a split row (fixed obstruction at
+x ∈ [4,6) of row 0), two rows of different orientation, polarised and unpolarised cells, two abutting
+cells — it satisfies every hypothesis, and the parameters `orderingWidth = 1/5` are accepted. -/
+def demoCircuit : Circuit :=
+  ⟨[⟨2, 2, 4, 0, .N, true, true, .ANY⟩, ⟨3, 2, 1, 0, .N, false, false, .SAME⟩, ⟨2, 2, 6, 0, .FN, false, false, .ANY⟩,
+    ⟨2, 2, 8, 0, .N, false, false, .ANY⟩, ⟨4, 2, 3, 2, .FS, false, false, .SAME⟩],
+   [], [⟨⟨0, 10, 0, 2⟩, .N⟩, ⟨⟨0, 10, 2, 4⟩, .FS⟩]⟩
+def demoParams : Params := ⟨0, 1/5, -1, 0⟩
+
+theorem demo_rows : demoCircuit.computeRows = [⟨⟨0, 4, 0, 2⟩, .N⟩, ⟨⟨6, 10, 0, 2⟩, .N⟩, ⟨⟨0, 10, 2, 4⟩, .FS⟩] := by
+  decide +kernel
+
+example : demoParams.check = true ∧ 0 ≤ demoParams.ow ∧ demoParams.ow ≤ 1 := by decide +kernel
+
+example : DomC demoCircuit ∧ SingleRow demoCircuit ∧ LegalC demoCircuit ∧ OrientLegal demoCircuit := by
+  have hH : Circuit.rowHeight demoCircuit = some 2 := by decide
+  refine ⟨⟨⟨2, by decide, hH, ?_⟩, by decide, by decide, by decide⟩, ?_, ⟨?_, by decide⟩, ?_⟩
+  · intro cl hcl hf
+    simp only [demoCircuit, List.mem_cons, List.not_mem_nil, or_false] at hcl
+    rcases hcl with rfl | rfl | rfl | rfl | rfl
+    · simp at hf
+    all_goals exact ⟨by decide, 1, by decide, by decide⟩
+  · intro cl hcl hf
+    simp only [demoCircuit, List.mem_cons, List.not_mem_nil, or_false] at hcl
+    rcases hcl with rfl | rfl | rfl | rfl | rfl
+    · simp at hf
+    all_goals decide
+  · intro H hH' cl hcl hf k hk0 hk
+    rw [hH] at hH'
+    have : H = 2 := (Option.some.inj hH').symm
+    subst this
+    rw [demo_rows]
+    simp only [demoCircuit, List.mem_cons, List.not_mem_nil, or_false] at hcl
+    rcases hcl with rfl | rfl | rfl | rfl | rfl
+    · simp at hf
+    · have : k = 0 := by simp [Cell.placedHeight, Orient.isTurn] at hk; omega
+      subst this
+      exact ⟨⟨⟨0, 4, 0, 2⟩, .N⟩, by simp, by decide⟩
+    · have : k = 0 := by simp [Cell.placedHeight, Orient.isTurn] at hk; omega
+      subst this
+      exact ⟨⟨⟨6, 10, 0, 2⟩, .N⟩, by simp, by decide⟩
+    · have : k = 0 := by simp [Cell.placedHeight, Orient.isTurn] at hk; omega
+      subst this
+      exact ⟨⟨⟨6, 10, 0, 2⟩, .N⟩, by simp, by decide⟩
+    · have : k = 0 := by simp [Cell.placedHeight, Orient.isTurn] at hk; omega
+      subst this
+      exact ⟨⟨⟨0, 10, 2, 4⟩, .FS⟩, by simp, by decide⟩
+  · intro cl hcl hf
+    rw [demo_rows]
+    simp only [demoCircuit, List.mem_cons, List.not_mem_nil, or_false] at hcl
+    rcases hcl with rfl | rfl | rfl | rfl | rfl
+    · simp at hf
+    all_goals decide
+
+/-- the conclusion on the demo circuit, evaluated by the kernel on the executed model (binary32 and
+exact key): positions unchanged -/
+example : resultPositions (legalize demoParams demoCircuit) = some (positions demoCircuit) ∧
+    resultPositions (legalizeExact demoParams demoCircuit) = some (positions demoCircuit) := by
+  decide +kernel
+
+/-- non-vacuity of `abacus_keeps_own_row`: the context is satisfiable (fresh legalizers, one row) -/
+example : SearchCtx [⟨⟨0, 10, 0, 2⟩, .N⟩] [RowLeg.State.new 0 10] ⟨3, 2, .ANY, 4, 0, .N⟩ 0 := by
+  refine ⟨by decide, rfl, by simp [SortedBy], ?_, ?_, by decide, rfl, ⟨0, [], nc_new 0 10, by decide⟩, by decide,
+    by decide, ?_⟩
+  · intro k hk
+    have : k = 0 := by simp at hk; omega
+    subst this; rfl
+  · intro k hk
+    have : k = 0 := by simp at hk; omega
+    subst this; exact ⟨[], 0, Reach.new⟩
+  · intro k hk hne
+    simp at hk; omega
+
+/-- **Idempotence, single-segment core** (kept from the first round; subsumed by
+`legalize_idempotent`).  For the cells of one free segment `[b, e]` listed left to right and
+`0 ≤ orderingWidth ≤ 1`: their exact ordering keys are strictly increasing, pushing them in that
+order costs 0 each time and `getPlacement` returns their own positions. -/
+theorem legalize_idempotent_single_segment (b e : Int) (ww wy wh : Rat) (h0 : 0 ≤ ww) (h1 : ww ≤ 1) (ty hh : Int)
     (cs : List LCell) (hs : ∀ c ∈ cs, c.ty = ty ∧ c.h = hh)
     (h : InOrder e b (cs.map fun c => (c.w, c.tx))) :
     (cs.Pairwise fun c1 c2 => orderKey id ww wy wh c1 < orderKey id ww wy wh c2) ∧
@@ -101,11 +234,6 @@ cells at x = 0 (width 4) and x = 4 (width 1), `orderingWidth = 2` (accepted by
 def wideParams : Params := ⟨0, 2, -1, 0⟩
 def wideCircuit : Circuit :=
   ⟨[⟨4, 2, 0, 0, .N, false, false, .ANY⟩, ⟨1, 2, 4, 0, .N, false, false, .ANY⟩], [], [⟨⟨0, 10, 0, 2⟩, .N⟩]⟩
-
-def positions (c : Circuit) : List (Int × Int) := c.cells.map fun cl => (cl.x, cl.y)
-def resultPositions : Except Err Circuit → Option (List (Int × Int))
-  | .ok c => some (positions c)
-  | .error _ => none
 
 /-- **Idempotence fails outside the unit interval.**  The parameters pass the check, the placement
 is legal, and both the binary32 model and the exact-key model move both cells
